@@ -216,7 +216,7 @@ def search(thm_name, harness_for, seed=1, n=30000):
     if ir is None:
         return None
     nin, outs_idx, ops = ir
-    cfg = "force32bit" if group.endswith("U32") else "purego"
+    cfg = "force32bit" if group.endswith("U32") else ("default" if group == "FieldAsm" else "purego")
     vh = harness_for(cfg)
     if vh is None:
         return None
@@ -249,5 +249,6 @@ def search(thm_name, harness_for, seed=1, n=30000):
 if __name__ == "__main__":
     # usage: l0search.py <theorem short name> <purego harness> <force32bit harness> <seed>
     nm, vp, v32, sd = sys.argv[1], sys.argv[2], sys.argv[3], int(sys.argv[4])
-    w = search(nm, lambda c: v32 if c == "force32bit" else vp, seed=sd)
+    vdef = sys.argv[5] if len(sys.argv) > 5 else vp
+    w = search(nm, lambda c: v32 if c == "force32bit" else (vdef if c == "default" else vp), seed=sd)
     print(json.dumps(w))
